@@ -14,9 +14,9 @@ class (`ValueError`, `AttributeError`, `KeyError`, `TypeError`, `AssertionError`
 in which the Python statements are executed, so that the model answers "which error wins when several defects
 are present".
 
-The simulation between validation and normalisation (`_preprocess_circuit`, `_perform_simulation`: gate sampling,
-circuit classes, backends) is NOT modelled here (properties C01-C12); its result, the mean over the shots of the
-Born-rule vectors, is the parameter `sim` of `run`.
+The simulation between validation and normalisation (`_perform_simulation`: gate sampling, circuit classes, backends;
+and the bookkeeping of `_preprocess_circuit` except the one statement that can raise, `preprocessCheck`) is NOT modelled
+here (properties C01-C12); its result, the mean over the shots of the Born-rule vectors, is the parameter `sim` of `run`.
 
 Python facts used (each is exercised by the correspondence on every run):
 * `isinstance(True, int)` is True (bool ⊂ int, `True == 1`); a `numpy.int64`, a float, a str, `None` are not `int`.
@@ -199,13 +199,17 @@ def normalise {α : Type} (num : Num α) (r : List α) : Except Err (List α) :=
 
 /-! ## `_measurament` -/
 
-/-- `format(i, f'0{n}b')` for `i < 2^n`: n characters, most significant first (`true` = '1') -/
+/-- the `n` low bits of `i`, most significant first (`true` = '1') -/
 def bits : Nat → Nat → List Bool
   | 0, _ => []
   | n + 1, i => (i / 2 ^ n % 2 == 1) :: bits n (i % 2 ^ n)
 
+/-- `format(i, f'0{n}b')` for `i < 2^n`: the n-character binary numeral — except that width 0 still prints the
+single digit of `i = 0` (`format(0, '00b') == '0'`) -/
+def formatBin (n i : Nat) : List Bool := if n = 0 then [false] else bits n i
+
 /-- `binary_vector` -/
-def binaryVector (n : Nat) : List (List Bool) := (List.range (2 ^ n)).map (bits n)
+def binaryVector (n : Nat) : List (List Bool) := (List.range (2 ^ n)).map (formatBin n)
 
 /-- `qubits_layout.index(q)` -/
 def indexOf : List Nat → Nat → Except Err Nat
@@ -253,6 +257,15 @@ def measurement {α : Type} (num : Num α) (prob : List α) (qMeasList : List (N
 
 /-! ## `run` -/
 
+/-- the only statement of `_preprocess_circuit` that can raise on a native-basis circuit: its last loop
+`swap_detector[qubits_layout.index(q)] = c` over the measure instructions, on a list of length `nqubit`
+(`IndexError: list assignment index out of range` when `nqubit` is smaller than the number of used qubits and a late
+qubit is measured). -/
+def preprocessCheck (lm : List Nat × List (Nat × Nat)) (nqubit : PyVal) : Except Err Unit :=
+  match asInt? nqubit with
+  | none => .ok ()                                           -- not reachable after the validation
+  | some nq => if lm.2.all (fun t => ((lm.1.idxOf t.1 : Nat) : Int) < nq) then .ok () else .error .indexError
+
 /-- what `run` does after the simulation returned the mean vector `sim` -/
 def finish {α : Type} (num : Num α) (lm : List Nat × List (Nat × Nat)) (sim : List α) :
     Except Err (List (List Bool × α)) :=
@@ -264,7 +277,10 @@ def runWith {α : Type} (repaired : Bool) (num : Num α) (circ : CircArg) (psi0 
     (sim : List α) : Except Err (List (List Bool × α)) :=
   match precheckWith repaired circ psi0 shots device nqubit with
   | .error e => .error e
-  | .ok lm => finish num lm sim
+  | .ok lm =>
+    match preprocessCheck lm nqubit with
+    | .error e => .error e
+    | .ok () => finish num lm sim                            -- `sim`: what `_perform_simulation` returned
 
 /-- `MrAndersonSimulator.run` with the simulation stage replaced by its result `sim` -/
 def run {α : Type} (num : Num α) := runWith (α := α) true num
